@@ -559,7 +559,9 @@ class Changelog(object):
                     current_block._raw_version = top_match.group(2)
                     current_block.distributions = top_match.group(3).lstrip()
 
-                    pairs = line.split(";", 1)[1]
+                    # everything after the ';' that ends the header match (the
+                    # version itself may contain a ';')
+                    pairs = line[top_match.end():]
                     all_keys = {}      # type: Dict[str, str]
                     other_pairs = {}   # type: Dict[str, str]
                     for pair in pairs.split(','):
